@@ -60,6 +60,35 @@ class Leaf:
 
 def plain_function(a, b=2):
     return a
+
+# subclasses of builtin containers whose __getitem__ is user code: defined on the class itself,
+# inherited from an intermediate base, or taken from a mixin
+class LoggedList(list):
+    def __getitem__(self, i):
+        COUNTER[('LoggedList', '__getitem__')] += 1
+        return list.__getitem__(self, i)
+
+class Rows(LoggedList):
+    pass
+
+class KeyMixin:
+    def __getitem__(self, k):
+        COUNTER[('KeyMixin', '__getitem__')] += 1
+        return Leaf()
+
+class Table(KeyMixin, dict):
+    pass
+
+class LoggedTuple(tuple):
+    def __getitem__(self, i):
+        COUNTER[('LoggedTuple', '__getitem__')] += 1
+        return tuple.__getitem__(self, i)
+
+class Pair(LoggedTuple):
+    pass
+
+class PlainRows(list):
+    pass
 '''
 
 
@@ -186,7 +215,14 @@ def gen_source(rnd, nclasses=3):
     L.append("box = {'objs': [%s], 'tup': (%s,)}" % (', '.join(o for o in objects if o.startswith('o')),
                                                      objects[0]))
     L.append('ns_obj = types.SimpleNamespace(first=%s, leaf=Leaf())' % objects[0])
-    objects += ['box', 'ns_obj']
+    L.append('sub_direct = LoggedList([Leaf(), 1])')
+    L.append('sub_rows = Rows([Leaf(), 1])')
+    L.append("sub_table = Table(k=Leaf())")
+    L.append('sub_pair = Pair((Leaf(), 2))')
+    L.append('sub_plain = PlainRows([Leaf(), 3])')
+    L.append("sub_box = {'rows': Rows([Leaf()]), 'both': [Table(k=1), Pair((Leaf(),))]}")
+    objects += ['box', 'ns_obj', 'sub_direct', 'sub_rows', 'sub_table', 'sub_pair', 'sub_plain', 'sub_box']
+    # (items of a *subclass* of a builtin container are not claimed by the plain-path clause)
     plain += [("box['objs'][0]", classes[0][0], 'instance'), ("box['tup'][0]", classes[0][0], 'instance'),
               ('ns_obj.leaf', 'Leaf', 'instance'), ('ns_obj.first', classes[0][0], 'instance')]
     L.append('OBJECTS = %r' % objects)
